@@ -10,6 +10,10 @@ def check(ctx):
     ctx.rule("C04.D3", "prune-to-ancestors dominates execution on every path of run; only exact Call nodes execute, once per callback")
     ctx.rule("C04.D4", "every queue construction that seeds the container also seeds unfinished_tasks with its length")
     ctx.assume("same runtime-library assumptions as C01; the at-most-once / exactly-once argument from these premises is on paper (DESIGN 4.C04)")
+    ctx.rule("C04.D5", "the engine evaluated as a whole on every small multigraph (parallel edges included), failing set, max_errors, scheduler and dequeue order: the function is called at most once per node, and exactly once for every node whose ancestors succeed")
+    from .engineeval import rule_engine_evaluated
+    ctx.run(rule_engine_evaluated, "C04.D5", None, ("once", "complete"))
+    ctx.run(E.rule_shared_state_atomic, "C04.D1", ctx.model.one_func("run_function_on_graph", "ENGINE"))
     r = E.discover(ctx.model)
     rr = R.discover(ctx.model, r)
     ctx.run(E.rule_atomic_counter, "C04.D1", r)
